@@ -1291,7 +1291,7 @@ impl BufferParser for Parser {
                         } else {
                             1
                         };
-                        (0..num.min(buf.terminal_state.get_height())).for_each(|_| buf.scroll_up(current_layer));
+                        buf.scroll_up_by(current_layer, num.min(buf.terminal_state.get_height()));
                         return Ok(CallbackAction::Update);
                     }
                     'T' => {
@@ -1302,7 +1302,7 @@ impl BufferParser for Parser {
                         } else {
                             1
                         };
-                        (0..num.min(buf.terminal_state.get_height())).for_each(|_| buf.scroll_down(current_layer));
+                        buf.scroll_down_by(current_layer, num.min(buf.terminal_state.get_height()));
                         return Ok(CallbackAction::Update);
                     }
                     'b' => {
